@@ -13,6 +13,9 @@ def main():
     if a.pid in CORE:
         import core
         mod = core
+    elif a.pid in ("C01", "C02", "C12"):
+        import c01
+        mod = c01
     elif a.pid in ("C06", "C16"):
         import c06
         mod = c06
